@@ -120,9 +120,25 @@ fn git_word(r: &mut Rng) -> String {
     }
 }
 
+
+/// a neighbour of `s`: same length, same beginning, the last ASCII digit / letter changed - parsed right after `s` on the same
+/// thread (a result remembered from the previous call must not be served for a different input)
+fn neighbour(s: &str) -> Option<String> {
+    let mut cs: Vec<char> = s.chars().collect();
+    let i = cs.iter().rposition(|c| c.is_ascii_alphanumeric())?;
+    cs[i] = match cs[i] {
+        '0'..='8' => (cs[i] as u8 + 1) as char,
+        '9' => '1',
+        'a'..='y' | 'A'..='Y' => (cs[i] as u8 + 1) as char,
+        _ => 'a',
+    };
+    Some(cs.into_iter().collect())
+}
+
 pub fn git_record(seed: u64, n: u64, path: &str) -> Value {
     let mut w = crate::out_file(path);
     let mut r = Rng::new(seed);
+    let mut extra = 0u64;
     for _ in 0..n {
         let words = *r.pick(&[0usize, 1, 1, 2, 2, 3, 3, 4, 6, 10]);
         let mut s = String::new();
@@ -139,9 +155,14 @@ pub fn git_record(seed: u64, n: u64, path: &str) -> Value {
             s.push_str(*r.pick(GIT_WS));
         }
         writeln!(w, "{}", json!({"s":cps(&s),"r":git_result(&s)})).unwrap();
+        extra += 1;
+        if let Some(t) = neighbour(&s) {
+            writeln!(w, "{}", json!({"s":cps(&t),"r":git_result(&t)})).unwrap();
+            extra += 1;
+        }
     }
     w.flush().unwrap();
-    json!({"summary":{"events":n}})
+    json!({"summary":{"events":extra}})
 }
 
 // ---------------------------------------------------------------------------------------------
@@ -189,6 +210,7 @@ pub fn ls_replay(path: &str) -> Value {
 }
 
 pub fn ls_record(seed: u64, n: u64, path: &str) -> Value {
+    let mut extra = 0u64;
     let mut w = crate::out_file(path);
     let mut r = Rng::new(seed);
     let interesting: &[u32] = &[0, 1, 2, 3, 4, 5, 6, 7, 8, 9, 21, 22, 23, 24, 25, 26, 27, 28, 29, 30, 31, 37, 38, 39, 40, 47, 48, 49, 58, 59, 90, 97, 100, 107, 255];
@@ -226,7 +248,12 @@ pub fn ls_record(seed: u64, n: u64, path: &str) -> Value {
             s = s.replace(';', ":");
         }
         writeln!(w, "{}", json!({"s":cps(&s),"r":ls_result(&s)})).unwrap();
+        extra += 1;
+        if let Some(t) = neighbour(&s) {
+            writeln!(w, "{}", json!({"s":cps(&t),"r":ls_result(&t)})).unwrap();
+            extra += 1;
+        }
     }
     w.flush().unwrap();
-    json!({"summary":{"events":n}})
+    json!({"summary":{"events":extra}})
 }
